@@ -27,3 +27,5 @@ def run(ctx):
                                 "library RNG) x threads 1..6 (incl. more threads than LPs) x checkpoint interval {1,2,3,7,auto} x GVT period "
                                 "x scheduler seed/burst; every trace line re-executed on the Lean LP model; non-trivial = runs that ended "
                                 "by predicate termination, whose per-LP final state digest was compared with the Lean sequential executor")
+    # refinement of the concrete kernel to the abstract global Time Warp machine of the glue theorems, checked on small runs
+    runlib.tw_matrix(ctx, 12, 400, salt=1)
